@@ -1,6 +1,7 @@
 package sign
 
 import (
+	"errors"
 	"fmt"
 
 	"github.com/taurusgroup/multi-party-sig/internal/round"
@@ -19,6 +20,17 @@ const (
 
 func StartSignCommon(taproot bool, result *keygen.Config, signers []party.ID, messageHash []byte) protocol.StartFunc {
 	return func(sessionID []byte) (round.Session, error) {
+		if err := result.Validate(); err != nil {
+			return nil, fmt.Errorf("sign.StartSign: %w", err)
+		}
+		if len(messageHash) == 0 {
+			return nil, errors.New("sign.StartSign: message hash is empty")
+		}
+		for _, id := range signers {
+			if _, ok := result.VerificationShares.Points[id]; !ok {
+				return nil, fmt.Errorf("sign.StartSign: signer %s holds no share of this key", id)
+			}
+		}
 		info := round.Info{
 			FinalRoundNumber: protocolRounds,
 			SelfID:           result.ID,
